@@ -31,4 +31,34 @@ impl Dyn {
         let _ = self.state_watch.send(new_generation);
         Ok(())
     }
+
+    /// negative: the same logic as the real current(), split into helpers (one snapshot under one guard)
+    fn snapshot(&self) -> (Arc<String>, u64) {
+        let inner = self.inner.read().unwrap();
+        (Arc::clone(inner.expr()), inner.generation)
+    }
+    fn publish(&self, generation: u64, expr: &Arc<String>) {
+        let mut cache = self.current_cache.write().unwrap();
+        let newer = match cache.as_ref() { Some((cached_gen, _)) => generation > *cached_gen, None => true };
+        if newer { *cache = Some((generation, Arc::clone(expr))); }
+    }
+    pub fn good_current_split(&self) -> Result<Arc<String>, String> {
+        let (e, g) = self.snapshot();
+        if let Some((cached_gen, cached)) = self.current_cache.read().unwrap().as_ref() {
+            if *cached_gen == g { return Ok(Arc::clone(cached)); }
+        }
+        self.publish(g, &e);
+        Ok(e)
+    }
+    /// seeded (the shape of an independent seeded fault): generation re-read when publishing
+    fn generation_now(&self) -> u64 { self.inner.read().unwrap().generation }
+    pub fn bad_current_reread(&self) -> Result<Arc<String>, String> {
+        let (e, g) = self.snapshot();
+        if let Some((cached_gen, cached)) = self.current_cache.read().unwrap().as_ref() {
+            if *cached_gen == g { return Ok(Arc::clone(cached)); }
+        }
+        let g2 = self.generation_now();
+        self.publish(g2, &e);
+        Ok(e)
+    }
 }
